@@ -368,6 +368,9 @@ def main():
                 C.note_interp(r.value["I"])
     # part B: the value-balance kernel (inductive step over all balanced stopped states)
     c09b.run_balance(C, P)
+    # part C: a suspended assignment and the commands that remove its variable
+    from checks import c09c
+    c09c.run_suspended_kernel(C, P)
     C.resolve_deferred(workers=8)
     C.extra["recipes_not_encodable"] = dict(list(not_enc.items())[:40])
     C.extra["error_states_played"] = n_states
